@@ -145,7 +145,10 @@ def decimal_inputs(nhex: int, rng: random.Random, is_signed: bool, tier: str) ->
     elif nhex == 2:
         nums += list(range(0, 700 if thorough else 300)) + [999, 1000, 1023, 1024, 65535, 65536]
     else:
-        nums += corner_values(bits, rng, 60 if thorough else 12)
+        cv = corner_values(bits, rng, 60 if thorough else 12)
+        pivot = 10 << (bits - 4)
+        must = [v for v in cv if v in (0, 9, 10, top - 1, top // 2, top // 2 - 1, top // 2 + 1) or pivot - 1 <= v <= pivot + 10]
+        nums += cv if thorough else must + rng.sample(cv, 70)
     # overflow beyond 16^n: documented as "mod 16^n"
     nums += [top, top + 1, top + 9, 10 * top + 7, 3 * top - 1, 10 ** (len(str(top)) + 2) + 12345, int('9' * (len(str(top)) + 6))]
     out: List[bytes] = []
@@ -253,8 +256,8 @@ def _contracts_w(tier: str, w: int) -> List[IOContract]:
         'input one byte into dst[:8] (lsb first)', lambda rng: [{'input': bytes([b]) + trailer(rng)} for b in rng.sample(range(256), 256)],
         input_=lambda v: v['input'], consumed=lambda v: 8)
     for n in (1, 2, 3, 4) + ((8,) if thorough else ()):
-        add(g, 'bit.input', f'bit.input {n}, x', {'x': Var('bit', 8 * n, 'out')}, lambda v, n=n: {'x': int.from_bytes(v['input'][:n], 'little')},
-            'Effectively inputs an 8*n bits little endian number into dst[:8n].', lambda rng, n=n: [{'input': rng.randbytes(n) + trailer(rng)} for _ in range(80)] + [{'input': bytes([0x01] + [0] * (n - 1))}, {'input': bytes([0] * (n - 1) + [0x80])}],
+        add(g, 'bit.input', f'bit.input {n}, x', {'x': Var('bit', 8 * n, 'out')}, lambda v, n=n: {'x': int.from_bytes(v['input'][:n], 'big')},
+            'inputs n bytes into dst[:8n], the first byte into the most-significant byte (effectively inputs an 8*n bits big endian number; each byte is read lsb first).', lambda rng, n=n: [{'input': rng.randbytes(n) + trailer(rng)} for _ in range(80)] + [{'input': bytes([0x01] + [0] * (n - 1))}, {'input': bytes([0] * (n - 1) + [0x80])}],
             input_=lambda v: v['input'], consumed=lambda v, n=n: 8 * n)
 
     # ============================================================ ascii-hex input
@@ -304,19 +307,20 @@ def _contracts_w(tier: str, w: int) -> List[IOContract]:
     DOC_IU = "dst[:n] = the signed decimal number read from input (two's complement, mod 16^n).  Reads an optional leading '-', then ASCII '0'..'9', and STOPS at the first non-digit byte, which gets stored in stop_byte[:2] (note that a leading '+' stops with dst=0)."
     DOC_U = "dst[:n] = the unsigned decimal number read from input (mod 16^n).  Reads ASCII '0'..'9' until a '\\n' or '\\0' (EOF) terminator; jumps to error on any other byte."
     DOC_I = "dst[:n] = the signed decimal number read from input (two's complement, mod 16^n).  Reads an optional leading '-', then ASCII '0'..'9' until a '\\n'/'\\0' terminator; jumps to error on any other byte"
+    DSH = {1: 2, 2: 3, 3: 2, 4: 3, 5: 3, 6: 4, 8: 5, 16: 12}  # shards: separately assembled instances sharing the tuples
     for n in HN:
         for name, spell, is_signed, doc in (('hex.input_dec_uint_until', spell_uint_until, False, DOC_UU), ('hex.input_dec_int_until', spell_int_until, True, DOC_IU)):
             add(g, name, f'{name} {n}, x, s', {'x': Var('hex', n, 'out'), 's': Var('hex', 2, 'out')},
                 lambda v, f=spell: {'x': f(v['input'])[0], 's': f(v['input'])[1]}, doc,
                 lambda rng, n=n, sg=is_signed: [{'input': s} for s in decimal_inputs(n, rng, sg, tier)],
                 input_=lambda v: v['input'], consumed=lambda v, f=spell: 8 * f(v['input'])[2], eof=lambda v, f=spell: f(v['input']) is None,
-                weight=3 * n * n, max_ops=6_000_000)
+                weight=3 * n * n, max_ops=6_000_000, shards=DSH.get(n, 4))
         for name, spell, is_signed, doc in (('hex.input_dec_uint', spell_uint_until, False, DOC_U), ('hex.input_dec_int', spell_int_until, True, DOC_I)):
             add(g, name, f'{name} {n}, x, l0', {'x': Var('hex', n, 'out')},
                 lambda v, f=spell: {'x': f(v['input'])[0] if f(v['input'])[1] in TERMINATORS else None}, doc,
                 lambda rng, n=n, sg=is_signed: [{'input': s} for s in decimal_inputs(n, rng, sg, tier)],
                 input_=lambda v: v['input'], consumed=lambda v, f=spell: 8 * f(v['input'])[2], eof=lambda v, f=spell: f(v['input']) is None,
-                exits=('l0',), exit_=lambda v, f=spell: None if f(v['input'])[1] in TERMINATORS else 'l0', weight=3 * n * n, max_ops=6_000_000)
+                exits=('l0',), exit_=lambda v, f=spell: None if f(v['input'])[1] in TERMINATORS else 'l0', weight=3 * n * n, max_ops=6_000_000, shards=DSH.get(n, 4))
 
     # ============================================================ raw output
     g = 'print-raw'
@@ -360,8 +364,8 @@ def _contracts_w(tier: str, w: int) -> List[IOContract]:
     g = 'print-hex'
     add(g, 'bit.print_as_digit', 'bit.print_as_digit x', {'x': Var('bit', 1, 'in')}, lambda v: {}, "prints the ascii character '0'/'1', based on x's value.", lambda rng: [{'x': b} for b in (0, 1, 1, 0, 1, 0, 0, 1)], output=lambda v: b'01'[v['x']:v['x'] + 1])
     for n in (1, 2, 3, 8) + ((13,) if thorough else ()):
-        add(g, 'bit.print_as_digit', f'bit.print_as_digit {n}, x', {'x': Var('bit', n, 'in')}, lambda v: {}, "prints x[:n] as n ascii-characters ('0's and '1's, lsb first).", values('bit', n),
-            output=lambda v, n=n: ''.join('01'[v['x'] >> i & 1] for i in range(n)).encode())
+        add(g, 'bit.print_as_digit', f'bit.print_as_digit {n}, x', {'x': Var('bit', n, 'in')}, lambda v: {}, "prints x[:n] as n ascii-characters ('0's and '1's, msb first).", values('bit', n),
+            output=lambda v, n=n: format(v['x'], f'0{n}b').encode())
     for uc in (0, 1):
         add(g, 'hex.print_as_digit', f'hex.print_as_digit x, {uc}', {'x': Var('hex', 1, 'in')}, lambda v: {}, 'prints the ascii of the hexadecimal representation of hex.  use_uppercase (constant): if true, print in uppercase (else lowercase).',
             lambda rng: [{'x': x} for x in rng.sample(range(16), 16) + rng.sample(range(16), 16)], output=lambda v, uc=uc: format(v['x'], 'X' if uc else 'x').encode())
@@ -389,13 +393,14 @@ def _contracts_w(tier: str, w: int) -> List[IOContract]:
 
     # ============================================================ decimal output
     g = 'print-decimal'
+    PSH = {16: 2, 20: 2, 24: 3, 32: 5, 64: 16}  # shards by number of bits
     for n in HN:
-        add(g, 'hex.print_dec_uint', f'hex.print_dec_uint {n}, x', {'x': Var('hex', n, 'in')}, lambda v: {}, 'prints x[:n] as an unsigned DECIMAL number (without leading zeros).', values('hex', n), output=lambda v: fmt_dec(v['x']), weight=40 * n * n, max_ops=8_000_000)
-        add(g, 'hex.print_dec_int', f'hex.print_dec_int {n}, x', {'x': Var('hex', n, 'in')}, lambda v: {}, 'prints x[:n] as a signed DECIMAL number (without leading zeros).', values('hex', n, signed_order=True), output=lambda v, n=n: fmt_dec(signed(v['x'], 4 * n)), weight=40 * n * n, max_ops=8_000_000)
+        add(g, 'hex.print_dec_uint', f'hex.print_dec_uint {n}, x', {'x': Var('hex', n, 'in')}, lambda v: {}, 'prints x[:n] as an unsigned DECIMAL number (without leading zeros).', values('hex', n), output=lambda v: fmt_dec(v['x']), weight=40 * n * n, max_ops=8_000_000, shards=PSH.get(4 * n, 1))
+        add(g, 'hex.print_dec_int', f'hex.print_dec_int {n}, x', {'x': Var('hex', n, 'in')}, lambda v: {}, 'prints x[:n] as a signed DECIMAL number (without leading zeros).', values('hex', n, signed_order=True), output=lambda v, n=n: fmt_dec(signed(v['x'], 4 * n)), weight=40 * n * n, max_ops=8_000_000, shards=PSH.get(4 * n, 1))
     for n in BN:
-        add(g, 'bit.print_dec_uint', f'bit.print_dec_uint {n}, x', {'x': Var('bit', n, 'in')}, lambda v: {}, 'prints x[:n] as an unsigned decimal number (without leading zeros).', values('bit', n), output=lambda v: fmt_dec(v['x']), weight=3 * n * n, max_ops=8_000_000)
+        add(g, 'bit.print_dec_uint', f'bit.print_dec_uint {n}, x', {'x': Var('bit', n, 'in')}, lambda v: {}, 'prints x[:n] as an unsigned decimal number (without leading zeros).', values('bit', n), output=lambda v: fmt_dec(v['x']), weight=3 * n * n, max_ops=8_000_000, shards=PSH.get(n, 1))
         if n >= 2:
-            add(g, 'bit.print_dec_int', f'bit.print_dec_int {n}, x', {'x': Var('bit', n, 'in')}, lambda v: {}, 'prints x[:n] as a signed decimal number (without leading zeros).', values('bit', n, signed_order=True), output=lambda v, n=n: fmt_dec(signed(v['x'], n)), weight=3 * n * n, max_ops=8_000_000)
+            add(g, 'bit.print_dec_int', f'bit.print_dec_int {n}, x', {'x': Var('bit', n, 'in')}, lambda v: {}, 'prints x[:n] as a signed decimal number (without leading zeros).', values('bit', n, signed_order=True), output=lambda v, n=n: fmt_dec(signed(v['x'], n)), weight=3 * n * n, max_ops=8_000_000, shards=PSH.get(n, 1))
     add(g, 'bit.print_dec_uint.print_char', 'bit.print_dec_uint.print_char x, f', {'x': Var('bit', 4, 'in'), 'f': Var('bit', 1, 'in')}, lambda v: {}, 'if char_flag:  print the ascii representation of the decimal digit ascii4[:4].',
         lambda rng: [{'x': x, 'f': f} for x, f in rng.sample([(x, f) for x in range(10) for f in (0, 1)], 20) * 2], output=lambda v: (b'%d' % v['x']) if v['f'] else b'')
 
@@ -420,7 +425,7 @@ def _contracts_w(tier: str, w: int) -> List[IOContract]:
         lambda rng: [{'a': a} for a in rng.sample(range(256), 256) + rng.sample(range(0x2E, 0x3C), 14)])
     add(g, 'bit.ascii2hex', 'bit.ascii2hex e, h, a', {'e': Var('bit', 1, 'out'), 'h': Var('bit', 4, 'out'), 'a': Var('bit', 8, 'in')},
         lambda v: {'e': 0, 'h': hex_digit_value(v['a'])} if hex_digit_value(v['a']) is not None else {'e': 1, 'h': None},
-        "if ascii is '0'-'9'/'a'-'f'/'A'-'F', set hex to that hexadecimal digit value (end error=0).  else, set error=1.  ascii is bit[:8], hex in bit[:4], and error(output-param) is a bit.",
+        "if ascii is '0'-'9'/'a'-'f'/'A'-'F', set hex to that hexadecimal digit value (end error=0).  else, set error=1.  ascii is bit[:8] (unchanged), hex in bit[:4], and error(output-param) is a bit.",
         lambda rng: [{'a': a} for a in rng.sample(range(256), 256) + rng.sample(list(b'09afAF@G`g/:'), 12)])
     for text in ('Hi!\\n', 'a', '0123456789abcdef~'):
         real = text.replace('\\n', '\n').encode()
@@ -537,7 +542,7 @@ def _contracts_w(tier: str, w: int) -> List[IOContract]:
     # ============================================================ round trips: what one macro stores the other prints (state shared in ONE program)
     g = 'roundtrip'
     for n in (2, 4) + ((8,) if thorough else ()):
-        add(g, 'hex.input_dec_int_until;hex.print_dec_int', f'hex.input_dec_int_until {n}, x, s\n  hex.print_dec_int {n}, x\n  hex.print s', {'x': Var('hex', n, 'out'), 's': Var('hex', 2, 'out')},
+        add(g, 'hex.input_dec_int_until;hex.print_dec_int;hex.print', f'hex.input_dec_int_until {n}, x, s\n  hex.print_dec_int {n}, x\n  hex.print s', {'x': Var('hex', n, 'out'), 's': Var('hex', 2, 'out')},
             lambda v: {'x': spell_int_until(v['input'])[0], 's': spell_int_until(v['input'])[1]}, DOC_IU + ' ; prints x[:n] as a signed DECIMAL number (without leading zeros). ; output 8 bits from x[:2]',
             lambda rng, n=n: [{'input': s} for s in decimal_inputs(n, rng, True, 'quick') if spell_int_until(s) is not None][:150 if thorough else 60],
             input_=lambda v: v['input'], consumed=lambda v: 8 * spell_int_until(v['input'])[2],
@@ -545,14 +550,30 @@ def _contracts_w(tier: str, w: int) -> List[IOContract]:
         add(g, 'hex.input_as_hex;hex.print_uint', f'hex.input_as_hex {n}, x, l0\n  hex.print_uint {n}, x, 1, 0', {'x': Var('hex', n, 'out')}, lambda v, n=n: {'x': as_hex_value(v['input'], n)},
             'hex[:n] = hex_from_ascii(input(n-bytes)) ; print the unsigned x[:n], without leading zeros.', lambda rng, n=n: [t for t in as_hex_dom(n)(rng) if as_hex_value(t['input'], n) is not None][:80],
             input_=lambda v: v['input'], consumed=lambda v, n=n: 8 * n, exits=('l0',), exit_=lambda v: None, output=lambda v, n=n: fmt_hex(as_hex_value(v['input'], n), True, False))
-    add(g, 'bit.input;bit.print', 'bit.input 2, x\n  bit.print 2, x', {'x': Var('bit', 16, 'out')}, lambda v: {'x': int.from_bytes(v['input'][:2], 'little')},
-        'Effectively inputs an 8*n bits little endian number into dst[:8n]. ; outputs n bytes from x[:8n] (a bit vector. from lsb to msb).', lambda rng: [{'input': rng.randbytes(2) + trailer(rng)} for _ in range(40)],
+    add(g, 'hex.input;hex.print', 'hex.input 2, x\n  hex.print 2, x', {'x': Var('hex', 4, 'out')}, lambda v: {'x': int.from_bytes(v['input'][:2], 'little')},
+        'bytes[:2n] = input(8n-bits)   // lsb first ; output n bytes from x[:2n]  (lsb first)', lambda rng: [{'input': rng.randbytes(2) + trailer(rng)} for _ in range(40)],
         input_=lambda v: v['input'], consumed=lambda v: 16, output=lambda v: v['input'][:2])
+    add(g, 'bit.input;bit.print', 'bit.input x\n  bit.print x', {'x': Var('bit', 8, 'out')}, lambda v: {'x': v['input'][0]},
+        'input one byte into dst[:8] (lsb first) ; outputs a byte from x[:8] (a bit vector. from lsb to msb).', lambda rng: [{'input': rng.randbytes(1) + trailer(rng)} for _ in range(40)],
+        input_=lambda v: v['input'], consumed=lambda v: 8, output=lambda v: v['input'][:1])
     return cs
 
 
+ANCHORED = ('hex/input.fj', 'hex/output.fj', 'hex/strings.fj', 'bit/input.fj', 'bit/output.fj', 'bit/casting.fj', 'casting.fj', 'runlib.fj')
+
+_PROLOGUE = 'program prologue, not an input/print/cast macro; stl.startup_and_init_all is the first statement of every harness program here, so every contract depends on it having set up the IO op, the tables and the pointer globals'
+_CONTROL = 'runlib.fj control macro, outside the statement of C09 (no input, print, cast or buffer behaviour)'
 NOT_COVERED: Dict[str, str] = {
     'bit.print_dec_uint.div10_step': 'inner step of bit.print_dec_uint: its parameters are the label-functions div10 / xor and the return register of the enclosing macro, it cannot be applied on its own; executed through bit.print_dec_uint / hex.print_dec_uint',
-    'stl.startup (both arities), stl.startup_and_init_pointers (both), stl.startup_and_init_all (three arities)': 'program prologue, not an input/print/cast macro; stl.startup_and_init_all is the first statement of every harness program here, so every contract depends on it having set up IO and the tables',
-    'stl.fj, stl.wflip_macro (2), stl.comp_if, stl.comp_if0, stl.comp_if1, stl.comp_flip_if, stl.skip, stl.loop': 'runlib.fj control macros, outside the statement of C09 (no input, print, cast or buffer behaviour); stl.loop ends every harness program, stl.comp_if0 is executed inside print_uint / print_hex_uint',
+    'stl.startup': _PROLOGUE,
+    'stl.startup_and_init_pointers': _PROLOGUE,
+    'stl.startup_and_init_all': _PROLOGUE,
+    'stl.fj': _CONTROL,
+    'stl.wflip_macro': _CONTROL,
+    'stl.comp_if': _CONTROL,
+    'stl.comp_if0': _CONTROL + '; executed inside hex.print_uint / bit.print_hex_uint (the x_prefix option)',
+    'stl.comp_if1': _CONTROL,
+    'stl.comp_flip_if': _CONTROL,
+    'stl.skip': _CONTROL,
+    'stl.loop': _CONTROL + '; ends every harness program',
 }
